@@ -57,20 +57,20 @@ func server() (*relsrv.Server, error) {
 var c20Tags = []string{"v1.0.0", "v1.5.0", "v1.5.1", "v2.0.0", "v2.1.0-rc1", "v2.1.0", "v3.0.0", "1.6.0", "release-2.2.0", "v1.2", "nightly", "v10.0.0", "v2.0.1-beta"}
 
 func genC20(t *rapid.T) C20Case {
-	c := C20Case{Running: rapid.SampledFrom([]string{"dev", "dev", "v1.5.0", "v1.5.0", "v2.0.0", "none"}).Draw(t, "running")}
-	n := rapid.IntRange(0, 5).Draw(t, "nrels")
+	c := C20Case{Running: rapid.SampledFrom([]string{"dev", "dev", "v1.5.0", "v1.5.0", "v2.0.0", "none", "v2.1.0-rc1", "v2.1.0-rc1"}).Draw(t, "running")}
+	n := rapid.SampledFrom([]int{0, 1, 1, 2, 2, 2, 3, 3, 4, 5}).Draw(t, "nrels")
 	tags := rapid.Permutation(c20Tags).Draw(t, "tags")[:n]
 	for _, tag := range tags {
 		r := C20Rel{Tag: tag}
-		r.Draft = rapid.IntRange(0, 7).Draw(t, "draft") == 0
-		r.Pre = rapid.IntRange(0, 6).Draw(t, "pre") == 0
-		r.Platform = rapid.SampledFrom([]string{"this", "this", "this", "both", "both", "other", "none"}).Draw(t, "platform")
+		r.Draft = rapid.IntRange(0, 11).Draw(t, "draft") == 0
+		r.Pre = rapid.IntRange(0, 9).Draw(t, "pre") == 0
+		r.Platform = rapid.SampledFrom([]string{"this", "this", "this", "this", "both", "both", "both", "other", "none"}).Draw(t, "platform")
 		r.Archive = rapid.SampledFrom([]string{"tar.gz", "tar.gz", "tar.gz", "zip", "raw", "corrupt", "noexe"}).Draw(t, "archive")
 		r.Checksum = rapid.SampledFrom([]string{"ok", "ok", "ok", "ok", "absent", "wrong", "other-file", "malformed", "missing-entry"}).Draw(t, "checksum")
 		c.Rels = append(c.Rels, r)
 	}
-	if rapid.IntRange(0, 4).Draw(t, "fault") == 0 {
-		c.Fault = rapid.SampledFrom([]string{"list-500", "list-404", "list-garbage", "asset-404", "asset-500", "asset-truncated", "checksum-404", "checksum-500"}).Draw(t, "faultkind")
+	if rapid.IntRange(0, 5).Draw(t, "fault") == 0 {
+		c.Fault = rapid.SampledFrom([]string{"list-500", "list-404", "list-garbage", "asset-404", "asset-404", "asset-500", "asset-500", "asset-truncated", "asset-truncated", "checksum-404", "checksum-404", "checksum-500", "checksum-500"}).Draw(t, "faultkind")
 	}
 	return c
 }
@@ -249,6 +249,8 @@ func runningBinary(name string) string {
 		return filepath.Join(dir, "crs-toolchain-v2.0.0")
 	case "none":
 		return filepath.Join(dir, "crs-toolchain-noversion")
+	case "v2.1.0-rc1":
+		return filepath.Join(dir, "crs-toolchain-v2.1.0-rc1")
 	}
 	return filepath.Join(dir, "crs-toolchain")
 }
@@ -303,7 +305,7 @@ func checkC20(c C20Case) Outcome {
 	out.Detail["exit"], out.Detail["stderr"], out.Detail["requests"] = r.Exit, headTail(r.Stderr, 4, 6), reqs
 	out.Detail["changed"] = before != after
 
-	running := parseSemver(map[string]string{"dev": "v0.0.0-dev", "v1.5.0": "v1.5.0", "v2.0.0": "v2.0.0", "none": ""}[c.Running])
+	running := parseSemver(map[string]string{"dev": "v0.0.0-dev", "v1.5.0": "v1.5.0", "v2.0.0": "v2.0.0", "none": "", "v2.1.0-rc1": "v2.1.0-rc1"}[c.Running])
 	newer := func(v semv) bool { return !running.ok || v.cmp(running) > 0 }
 
 	// reference: R = greatest candidate (non-draft, non-prerelease, semver tag, asset for this platform)
